@@ -264,6 +264,13 @@ def run_C02(ctx):
         else:
             violations.append({"check": "C02.text_parses_to_reference_tree", "text": r.get("text", ""),
                                "detail": "a formula printed by the reference grammar is not accepted: " + str(r.get("error", r.get("panic", "")))[:200], "record": r})
+    ents = V.tlc_generate(ctx, "precentry", 58, 1, {"GEN_STRIDE": 1})
+    eexp = {c["id"]: c["exp"] for c in ents}
+    for r in V.run_harness(ctx, "roundtrip", [{"id": c["id"], "as": c["as"], "text": c["text"]} for c in ents], tag="-entry"):
+        if r["kind"] == "roundtrip":
+            gok.append({"id": r["id"], "kind": "roundtrip", "text": r["text"], "stage": r["stage"], "tree1": r.get("tree1", []), "exp": eexp[r["id"]]})
+        else:
+            violations.append({"check": "C02.text_parses_to_reference_tree", "text": r.get("text", ""), "detail": "harness: " + str(r)[:200], "record": r})
     gverd = V.tlc_validate(ctx, "TraceSem", gok, {}, workers=4)
     gstats, gviol = V.collect(gverd, gok, "C02.text")
     violations += gviol
